@@ -25,3 +25,10 @@ GROUPS += [
           flags=["--no-malloc-may-fail"], slice=True, must_fail=["reach_end", "reach_added", "reach_bad_row_index"], functions=["ILLlib_addcol", "matrix_addcol"], props=["C06", "C07", "C17"], assumed=[ASM])
     for c in (0, 1)
 ]
+
+GROUPS += [
+    Group("addrow/basis_c%d" % c, "lib_addrow.c", tus=LIB, model=MODEL, mem_gb=8, defines=["WITH_BASIS", "RCNT=%d" % c], dfcc=False, unwind=18, kind="bounded", timeout=2400, namebuf=512,
+          bound=(B % "row/column arrays have room for one more").replace("new row with at most 2 entries (1 in the *1 variants)", "new row with exactly %d entries" % c) + "; the caller's basis object (arbitrary status codes, no norms) is passed",
+          flags=["--no-malloc-may-fail"], slice=True, cut=["matrix_addrow_end"], must_fail=["reach_end", "reach_added"], functions=["ILLlib_addrow", "matrix_addrow", "matrix_addcol"], props=["C06", "C07", "C17"], assumed=[ASM])
+    for c in (0, 1)
+]
